@@ -49,46 +49,47 @@ fn lead4() -> (u8, u8) {
     (l, c)
 }
 
-fn in_text(input: &str, p: BytePos) -> bool {
+/// `mask` has bit i set iff byte offset i is a character boundary of the input (known from the
+/// fixed layout, so the check is pure arithmetic)
+fn in_text(len: usize, mask: u32, p: BytePos) -> bool {
     let i = p.to_usize();
-    i >= 1 && i <= input.len() + 1 && input.is_char_boundary(i - 1)
+    i >= 1 && i <= len + 1 && (mask >> (i - 1)) & 1 == 1
 }
 
-fn span_ok(input: &str, s: &Span<Location>) -> bool {
-    in_text(input, s.start().absolute) && in_text(input, s.end().absolute) && s.start().absolute <= s.end().absolute
+fn span_ok(len: usize, mask: u32, s: &Span<Location>) -> bool {
+    in_text(len, mask, s.start().absolute) && in_text(len, mask, s.end().absolute) && s.start().absolute <= s.end().absolute
 }
 
-fn lex_step(input: &'static str, canary: bool) {
+fn lex_step(input: &'static str, mask: u32, canary: bool) {
+    let len = input.len();
     let mut t = ManuallyDrop::new(Tokenizer::new(input));
     let r = ManuallyDrop::new(t.next());
     match &*r {
         Some(Ok(tok)) => {
-            assert!(span_ok(input, &tok.span), "token span inside the input on char boundaries");
+            assert!(span_ok(len, mask, &tok.span), "token span inside the input on char boundaries");
             kani::cover!(true, "token");
         }
         Some(Err(e)) => {
-            assert!(span_ok(input, &e.span), "error span inside the input on char boundaries");
+            assert!(span_ok(len, mask, &e.span), "error span inside the input on char boundaries");
             kani::cover!(true, "hard error");
         }
         None => assert!(false, "the tokenizer always yields (EOF token at the end)"),
     }
-    // recovered errors (at most three can be recorded for these inputs)
+    // recovered errors
     let n = t.errors.len();
-    assert!(n <= 4);
-    if n > 0 { assert!(span_ok(input, &t.errors[0].span), "recorded error span"); }
-    if n > 1 { assert!(span_ok(input, &t.errors[1].span), "recorded error span"); }
-    if n > 2 { assert!(span_ok(input, &t.errors[2].span), "recorded error span"); }
-    if n > 3 { assert!(span_ok(input, &t.errors[3].span), "recorded error span"); }
+    if n > 0 { assert!(span_ok(len, mask, &t.errors[0].span), "recorded error span"); }
+    if n > 1 { assert!(span_ok(len, mask, &t.errors[1].span), "recorded error span"); }
+    if n > 2 { assert!(span_ok(len, mask, &t.errors[2].span), "recorded error span"); }
     // the tokenizer stops on a character boundary ...
     let rest = t.chars.chars.as_str_suffix().len();
-    assert!(rest <= input.len());
-    assert!(input.is_char_boundary(input.len() - rest), "tokenizer stops on a char boundary");
+    assert!(rest <= len);
+    assert!((mask >> (len - rest)) & 1 == 1, "tokenizer stops on a char boundary");
     // ... and its location agrees with the bytes consumed
-    assert!(t.chars.location.absolute.to_usize() == 1 + input.len() - rest, "location tracks consumed bytes");
+    assert!(t.chars.location.absolute.to_usize() == 1 + len - rest, "location tracks consumed bytes");
     // progress unless the input is exhausted
     if let Some(Ok(tok)) = &*r {
         if !matches!(tok.value, Token::EOF) {
-            assert!(rest < input.len(), "a token consumes input");
+            assert!(rest < len, "a token consumes input");
         }
     }
     if canary {
@@ -104,13 +105,27 @@ macro_rules! text {
     }};
 }
 
+/// boundary mask of a text made of characters of the given encoded widths
+const fn mask_of(widths: &[u32]) -> u32 {
+    let mut m = 1u32;
+    let mut at = 0u32;
+    let mut i = 0;
+    while i < widths.len() {
+        at += widths[i];
+        m |= 1 << at;
+        i += 1;
+    }
+    m
+}
+
 macro_rules! lex {
-    ($name: ident, $unwind: literal, $body: block) => {
+    ($name: ident, $unwind: literal, [$($w: literal),*], $body: block) => {
         #[kani::proof]
         #[kani::unwind($unwind)]
         fn $name() {
+            const MASK: u32 = mask_of(&[$($w),*]);
             let input: &'static str = $body;
-            lex_step(input, false);
+            lex_step(input, MASK, false);
         }
     };
 }
@@ -118,68 +133,68 @@ macro_rules! lex {
 // ---- any first character (covers identifiers, digits, operators, delimiters, whitespace and the
 // ---- "unexpected character" path), followed by two arbitrary ASCII bytes
 //@ tier=quick cap=900 funcs=Tokenizer::next,Tokenizer::identifier,Tokenizer::operator,Tokenizer::numeric_literal,CharLocations::next,Location::shift bound=3_arbitrary_ASCII_bytes_first_not_digit_or_minus
-lex!(c09_tok_ascii3, 8, {
+lex!(c09_tok_ascii3, 8, [1, 1, 1], {
     // numeric literals (float parsing of symbolic digits) have their own harness
     let a = ascii();
     kani::assume(!(a >= b'0' && a <= b'9') && a != b'-');
     text![a, ascii(), ascii()]
 });
-//@ tier=thorough cap=3000 mem=14 funcs=Tokenizer::numeric_literal,i64_from_hex bound=digit_or_minus_then_3_arbitrary_ASCII_bytes
-lex!(c09_tok_num, 8, {
+//@ tier=thorough cap=1800 mem=14 funcs=Tokenizer::numeric_literal,i64_from_hex bound=digit_or_minus_then_3_arbitrary_ASCII_bytes
+lex!(c09_tok_num, 8, [1, 1, 1, 1], {
     let a = ascii();
     kani::assume((a >= b'0' && a <= b'9') || a == b'-');
     text![a, ascii(), ascii(), ascii()]
 });
 //@ tier=quick cap=900 funcs=Tokenizer::next,Tokenizer::skip_char,StrSuffix::restore_char bound=any_2_byte_char_then_2_ASCII_bytes
-lex!(c09_tok_first_w2, 8, { text![lead2(), cont(), ascii(), ascii()] });
+lex!(c09_tok_first_w2, 8, [2, 1, 1], { text![lead2(), cont(), ascii(), ascii()] });
 //@ tier=quick cap=900 funcs=Tokenizer::next,StrSuffix::restore_char bound=any_3_byte_char_then_1_ASCII_byte
-lex!(c09_tok_first_w3, 8, { let (l, c) = lead3(); text![l, c, cont(), ascii()] });
-//@ tier=quick cap=900 funcs=Tokenizer::next,StrSuffix::restore_char bound=any_4_byte_char_then_1_ASCII_byte
-lex!(c09_tok_first_w4, 8, { let (l, c) = lead4(); text![l, c, cont(), cont(), ascii()] });
-//@ tier=quick cap=900 funcs=Tokenizer::next bound=ASCII_byte_then_any_2_byte_char_then_ASCII
-lex!(c09_tok_second_w2, 8, { text![ascii(), lead2(), cont(), ascii()] });
+lex!(c09_tok_first_w3, 8, [3, 1], { let (l, c) = lead3(); text![l, c, cont(), ascii()] });
+//@ tier=thorough cap=1800 funcs=Tokenizer::next,StrSuffix::restore_char bound=any_4_byte_char_then_1_ASCII_byte
+lex!(c09_tok_first_w4, 8, [4, 1], { let (l, c) = lead4(); text![l, c, cont(), cont(), ascii()] });
+//@ tier=thorough cap=1800 funcs=Tokenizer::next bound=ASCII_byte_then_any_2_byte_char_then_ASCII
+lex!(c09_tok_second_w2, 8, [1, 2, 1], { text![ascii(), lead2(), cont(), ascii()] });
 //@ tier=thorough cap=1800 funcs=Tokenizer::next bound=ASCII_byte_then_any_3_byte_char_then_ASCII
-lex!(c09_tok_second_w3, 8, { let (l, c) = lead3(); text![ascii(), l, c, cont(), ascii()] });
+lex!(c09_tok_second_w3, 8, [1, 3, 1], { let (l, c) = lead3(); text![ascii(), l, c, cont(), ascii()] });
 
 // ---- character literals
 //@ tier=quick cap=900 funcs=Tokenizer::char_literal,Tokenizer::escape_code bound=quote_then_3_arbitrary_ASCII_bytes
-lex!(c09_tok_char_ascii, 8, { text![b'\'', ascii(), ascii(), ascii()] });
+lex!(c09_tok_char_ascii, 8, [1, 1, 1, 1], { text![b'\'', ascii(), ascii(), ascii()] });
 //@ tier=quick cap=900 funcs=Tokenizer::char_literal,StrSuffix::restore_char bound=quote_then_any_2_byte_char_then_ASCII
-lex!(c09_tok_char_w2, 8, { text![b'\'', lead2(), cont(), ascii()] });
+lex!(c09_tok_char_w2, 8, [1, 2, 1], { text![b'\'', lead2(), cont(), ascii()] });
 //@ tier=quick cap=900 funcs=Tokenizer::char_literal,StrSuffix::restore_char bound=quote_then_any_3_byte_char_then_ASCII
-lex!(c09_tok_char_w3, 8, { let (l, c) = lead3(); text![b'\'', l, c, cont(), ascii()] });
+lex!(c09_tok_char_w3, 8, [1, 3, 1], { let (l, c) = lead3(); text![b'\'', l, c, cont(), ascii()] });
 //@ tier=thorough cap=1800 funcs=Tokenizer::char_literal,StrSuffix::restore_char bound=quote_then_any_4_byte_char_then_ASCII
-lex!(c09_tok_char_w4, 8, { let (l, c) = lead4(); text![b'\'', l, c, cont(), cont(), ascii()] });
-//@ tier=quick cap=900 funcs=Tokenizer::char_literal bound=quote_ASCII_then_any_2_byte_char
-lex!(c09_tok_char_then_w2, 8, { text![b'\'', ascii(), lead2(), cont()] });
-//@ tier=quick cap=900 funcs=Tokenizer::char_literal,Tokenizer::escape_code bound=quote_backslash_then_any_2_byte_char_then_ASCII
-lex!(c09_tok_char_escape_w2, 8, { text![b'\'', b'\\', lead2(), cont(), ascii()] });
+lex!(c09_tok_char_w4, 8, [1, 4, 1], { let (l, c) = lead4(); text![b'\'', l, c, cont(), cont(), ascii()] });
+//@ tier=thorough cap=1800 funcs=Tokenizer::char_literal bound=quote_ASCII_then_any_2_byte_char
+lex!(c09_tok_char_then_w2, 8, [1, 1, 2], { text![b'\'', ascii(), lead2(), cont()] });
+//@ tier=thorough cap=1800 funcs=Tokenizer::char_literal,Tokenizer::escape_code bound=quote_backslash_then_any_2_byte_char_then_ASCII
+lex!(c09_tok_char_escape_w2, 8, [1, 1, 2, 1], { text![b'\'', b'\\', lead2(), cont(), ascii()] });
 //@ tier=thorough cap=1800 funcs=Tokenizer::char_literal,Tokenizer::escape_code bound=quote_backslash_then_any_3_byte_char_then_ASCII
-lex!(c09_tok_char_escape_w3, 8, { let (l, c) = lead3(); text![b'\'', b'\\', l, c, cont(), ascii()] });
+lex!(c09_tok_char_escape_w3, 8, [1, 1, 3, 1], { let (l, c) = lead3(); text![b'\'', b'\\', l, c, cont(), ascii()] });
 
 // ---- string literals
 //@ tier=quick cap=900 funcs=Tokenizer::string_literal,Tokenizer::escape_code,Tokenizer::take_until,Tokenizer::slice bound=dquote_then_3_arbitrary_ASCII_bytes
-lex!(c09_tok_str_ascii, 8, { text![b'"', ascii(), ascii(), ascii()] });
+lex!(c09_tok_str_ascii, 8, [1, 1, 1, 1], { text![b'"', ascii(), ascii(), ascii()] });
 //@ tier=quick cap=900 funcs=Tokenizer::string_literal,Tokenizer::escape_code,Tokenizer::slice bound=dquote_backslash_then_any_2_byte_char_then_ASCII
-lex!(c09_tok_str_escape_w2, 8, { text![b'"', b'\\', lead2(), cont(), ascii()] });
+lex!(c09_tok_str_escape_w2, 8, [1, 1, 2, 1], { text![b'"', b'\\', lead2(), cont(), ascii()] });
 //@ tier=thorough cap=1800 funcs=Tokenizer::string_literal,Tokenizer::escape_code,Tokenizer::slice bound=dquote_backslash_then_any_3_byte_char_then_ASCII
-lex!(c09_tok_str_escape_w3, 8, { let (l, c) = lead3(); text![b'"', b'\\', l, c, cont(), ascii()] });
-//@ tier=quick cap=900 funcs=Tokenizer::string_literal bound=dquote_then_any_2_byte_char_then_ASCII
-lex!(c09_tok_str_w2, 8, { text![b'"', lead2(), cont(), ascii()] });
+lex!(c09_tok_str_escape_w3, 8, [1, 1, 3, 1], { let (l, c) = lead3(); text![b'"', b'\\', l, c, cont(), ascii()] });
+//@ tier=thorough cap=1800 funcs=Tokenizer::string_literal bound=dquote_then_any_2_byte_char_then_ASCII
+lex!(c09_tok_str_w2, 8, [1, 2, 1], { text![b'"', lead2(), cont(), ascii()] });
 
 // ---- raw strings and comments
-//@ tier=quick cap=900 funcs=Tokenizer::raw_string_literal bound=r_then_3_arbitrary_ASCII_bytes
-lex!(c09_tok_raw_ascii, 8, { text![b'r', ascii(), ascii(), ascii()] });
-//@ tier=quick cap=900 funcs=Tokenizer::line_comment,Tokenizer::block_comment bound=slash_then_3_arbitrary_ASCII_bytes
-lex!(c09_tok_slash_ascii, 8, { text![b'/', ascii(), ascii(), ascii()] });
+//@ tier=thorough cap=1800 funcs=Tokenizer::raw_string_literal bound=r_then_3_arbitrary_ASCII_bytes
+lex!(c09_tok_raw_ascii, 8, [1, 1, 1, 1], { text![b'r', ascii(), ascii(), ascii()] });
+//@ tier=thorough cap=1800 funcs=Tokenizer::line_comment,Tokenizer::block_comment bound=slash_then_3_arbitrary_ASCII_bytes
+lex!(c09_tok_slash_ascii, 8, [1, 1, 1, 1], { text![b'/', ascii(), ascii(), ascii()] });
 //@ tier=thorough cap=1800 funcs=Tokenizer::line_comment,Tokenizer::block_comment bound=slash_ASCII_then_any_2_byte_char_then_ASCII
-lex!(c09_tok_slash_w2, 8, { text![b'/', ascii(), lead2(), cont(), ascii()] });
-//@ tier=quick cap=900 funcs=Tokenizer::shebang_line bound=hash_then_3_arbitrary_ASCII_bytes
-lex!(c09_tok_hash_ascii, 8, { text![b'#', ascii(), ascii(), ascii()] });
+lex!(c09_tok_slash_w2, 8, [1, 1, 2, 1], { text![b'/', ascii(), lead2(), cont(), ascii()] });
+//@ tier=thorough cap=1800 funcs=Tokenizer::shebang_line bound=hash_then_3_arbitrary_ASCII_bytes
+lex!(c09_tok_hash_ascii, 8, [1, 1, 1, 1], { text![b'#', ascii(), ascii(), ascii()] });
 
 //@ tier=quick cap=900
 #[kani::proof]
 #[kani::unwind(8)]
 fn c09_tok_canary() {
-    lex_step(text![b'\'', ascii(), ascii(), ascii()], true);
+    lex_step(text![b'\'', ascii(), ascii(), ascii()], 0b11111, true);
 }
